@@ -261,6 +261,9 @@ def run(rep, tier):
         rep.call(simd_rules.lane_bypass, rep, prog, "C06.lane-bypass")
         rep.call(rounding.round_div, rep, prog, "C06.round-div")
         from ..engines import type_tables
+        rep.call(type_tables.t_types, rep, prog, "C06.table")
+        from ..engines import row_coverage
+        rep.call(row_coverage.zip_store, rep, prog, "C06.store-every-pixel")
         rep.call(type_tables.recip_table, rep, prog, "C06.recip-table")
         rep.call(type_tables.recip_table16, rep, prog, "C06.recip-table16")
         rep.call(type_tables.recip_table16, rep, prog, "C06.recip-table16")
